@@ -288,5 +288,59 @@ def fam_response(ctx, rng):
     ctx.nontrivial(["resp", flat, L, dt, alpha])
 
 
-FAMILIES = [("parseval-scaling-welch", fam_parseval), ("diffuse-field-and-smoothed-psd", fam_diffuse),
+def fam_same_windows_reused(ctx, rng):
+    """The SAME recording objects are processed several times (PSD, PSD again, diffuse field 'from the same windows',
+    single-window Welch runs): every call must describe the samples the objects hold."""
+    import hvsrpy
+    wins, k, L, sc = gen_windows(rng, k=int(rng.choice([1, 2, 4])), L=int(rng.choice([101, 500, 4096])))
+    dt = float(DTS[int(rng.integers(0, len(DTS)))])
+    alpha = float(rng.choice([0.05, 0.1, 0.5, 1.0]))
+    info = dict(k=k, L=L, dt=dt, alpha=alpha)
+    ctx.describe(**info, kind="same objects reused")
+    recs = [gen.make_recording(w[0], w[1], w[2], dt) for w in wins]
+    tap = tukey(L, alpha)
+    U = np.mean(tap ** 2)
+    alt = (-1.0) ** np.arange(L)
+    ok, worst, ncalls = True, 0.0, int(rng.integers(2, 4))
+    n = None
+    for call in range(ncalls):
+        st = psd_settings(alpha, n, None)
+        with np.errstate(all="ignore"):
+            out = hvsrpy.process(recs, st)
+        n = st.fft_settings["n"]
+        ctx.count("process_calls")
+        df = (1.0 / dt) / n
+        for ci, comp in enumerate(("ns", "ew", "vt")):
+            lhs = float(np.sum(out[comp].amplitude[1:n // 2]) * df)
+            rhs = float(np.mean([(np.mean((tap * w[ci]) ** 2) - (np.sum(tap * w[ci]) ** 2 + np.sum(alt * tap * w[ci]) ** 2) / (n * L)) / U for w in wins]))
+            tot = float(np.mean([np.mean((tap * w[ci]) ** 2) for w in wins]) / U)
+            e = abs(lhs - rhs) / max(tot, 1e-300)
+            worst = max(worst, e)
+            ok = ok and e <= 1e-9
+    ctx.check(ok, "parseval", f"the PSD of call 1..{ncalls} on the same recording objects does not account for the mean square of "
+              "the tapered samples those objects were created with", worst_relative_error=worst, calls=ncalls, **info)
+    # diffuse field from the same objects == expression from the PSDs of fresh copies of the same samples
+    op = "konno_and_ohmachi"
+    fcs = np.geomspace(0.02 / dt / 10, 0.4 / dt, 12)
+    sm = dict(operator=op, bandwidth=40.0, center_frequencies_in_hz=fcs)
+    raw, n2 = run_psd(ctx, wins, dt, alpha, n)
+    f = np.fft.rfftfreq(n2, dt)
+    res2 = SM.smooth(op, f, np.vstack([raw["ns"].amplitude + raw["ew"].amplitude, raw["vt"].amplitude]), fcs, 40.0)
+    st = hvsrpy.HvsrDiffuseFieldProcessingSettings(window_type_and_width=("tukey", alpha), smoothing=dict(sm), fft_settings=dict(n=int(n2)))
+    try:
+        with np.errstate(all="ignore"):
+            dfh = hvsrpy.process(recs, st)
+    except ValueError:
+        ctx.count("process_refused")
+        return
+    cols = [j for j in range(fcs.size) if j not in res2.alts and j not in res2.unbounded and not res2.empty[j] and res2.base[1, j] > 0]
+    with np.errstate(all="ignore"):
+        want = np.sqrt(res2.base[0] / res2.base[1])
+    got = np.asarray(dfh.amplitude)
+    ctx.check(close(got[cols], want[cols], rtol=1e-9), "diffuse-field-from-psds", "diffuse-field HVSR of recording objects that were "
+              "processed before differs from sqrt(S(Pns+Pew)/S(Pvt)) of the same samples", maxrel=maxrel(got[cols], want[cols]), **info)
+    ctx.nontrivial(["reused", k, L, dt, alpha, ncalls])
+
+
+FAMILIES = [("same-windows-reused", fam_same_windows_reused), ("parseval-scaling-welch", fam_parseval), ("diffuse-field-and-smoothed-psd", fam_diffuse),
             ("differentiate", fam_differentiate), ("instrument-response", fam_response)]
